@@ -157,7 +157,7 @@ def shards(tier, seed):
         if tier == "quick":
             out.append(dict(tier=tier, seed=seed * 1000 + i, idx=i, devs=mine[:4], ncases=140, max_ops=10, max_beats=90, long_every=4))
         else:
-            out.append(dict(tier=tier, seed=seed * 1000 + i, idx=i, devs=mine[:6], ncases=300, max_ops=16, max_beats=400, long_every=1))
+            out.append(dict(tier=tier, seed=seed * 1000 + i, idx=i, devs=mine[:6], ncases=900, max_ops=16, max_beats=400, long_every=1))
     # write buffer depth 1 is accepted by the constructor; probed by the last device of the last shard with a few cases
     out[-1]["devs"] = out[-1]["devs"] + [dict(dw=32, aw=16, idw=2, wdepth=1, rdepth=1, base=0, rmw=0)]
     return out
